@@ -55,7 +55,11 @@ PiClass(atoms, adj, a) ==
                   ELSE IF t \in AroValences(at.el) THEN "sat" ELSE "unspec"
           ELSE LET v0 == BaseValence(g - ChargeInt(at.chg))     \* isoelectronic neutral element
                IN IF v0 = 0 THEN "unspec"
-                  ELSE IF t = v0 THEN "sat" ELSE IF t = v0 - 1 THEN "needs" ELSE "unspec"
+                  ELSE IF t = v0 THEN "sat"
+                  (* one bond short of the normal valence: the closed-shell reading needs a pi   *)
+                  (* bond; for an anion the library's radical reading (lone pair in the ring,    *)
+                  (* no pi bond) is a defensible alternative, so anions are left undecided       *)
+                  ELSE IF t = v0 - 1 /\ ChargeInt(at.chg) >= 0 THEN "needs" ELSE "unspec"
 
 MatchingOn(M, Must, May, Never) ==      \* M: set of edges
   /\ \A a \in Must  : Cardinality({ed \in M : a \in {ed[1], ed[2]}}) = 1
